@@ -13,8 +13,8 @@ ASSUMPTIONS = [
     "at the excluded points the real code keeps a zero-amount level until it is deleted, and with duplicate prices binary_search_by hits an "
     "unspecified one of the equal levels so duplicates persist) - updates are unrestricted",
     "slice::binary_search_by on a strictly sorted Vec returns the position a front-to-back scan finds (documented std semantics; modelled as the scan)",
-    "sort_unstable_by is modelled as a stable sort; Rust leaves the order of equal-priced levels inside one update unspecified (the harness prints the "
-    "stored levels of every event so a different order shows up as a correspondence break; all theorems about updates hold for any order)",
+    "the sort of OrderBookSide::{bids, asks} is modelled as a stable sort - which it is since fix 911b9f8 (`sort_by`; before: `sort_unstable_by`, whose order of equal-priced levels inside one update is unspecified); the harness prints the "
+    "stored levels of every event so a different order shows up as a correspondence break; all theorems about updates hold for any order",
     "exact rational arithmetic; rust_decimal rounding of the volume-weighted mid-price is compared to 1e-18; Decimal division by zero "
     "(best amounts summing to 0, only possible with negative amounts) panics in Rust and is not modelled; generated amounts are >= 0",
     "mid-price with one empty side: the property text does not define it; the spec follows the documented and test-pinned convention (best price of the other side)",
@@ -50,7 +50,7 @@ LEVEL_TEXT = ("Proof. Lean theorems over the order-book model (lean/BarterModel/
               "(sequence_last); the manager applies each instrument's items to that instrument's book only (manager_applies_per_instrument); snapshots made by "
               "OrderBook::new from distinct-price non-zero levels satisfy the hypothesis (new_wf). Unbounded in history length, level-list length and prices. "
               "The model is tied to the code by running the same histories through the real OrderBook and OrderBookL2Manager on every run.")
-LEVEL_NOTE = ("Trusted: Lean kernel; axioms propext/Classical.choice/Quot.sound only; the hand-written model (binary_search_by as a scan, sort_unstable_by as a "
+LEVEL_NOTE = ("Trusted: Lean kernel; axioms propext/Classical.choice/Quot.sound only; the hand-written model (binary_search_by as a scan, the stable `sort_by` of the sides as a "
               "stable sort), tied by sampled correspondence (500 quick / 30k random + 10.8k small-scope exhaustive thorough); harness, driver, orchestrator. "
               "Hypothesis: Snapshot events carry strictly ordered sides without zero amounts (guaranteed by OrderBook::new for distinct-price non-zero input; "
               "the code does not enforce it - documented precondition). Exact rationals instead of rust_decimal; time_engine and lock contention not modelled. "
